@@ -25,7 +25,7 @@ COLS_VAL = ["peak_val", "trough_val", "tip_val", "recovery_val"]
 
 
 def gen_cases(seed, tier):
-    n = 30 if tier == "quick" else 4000
+    n = 30 if tier == "quick" else 1200
     cases = []
     for cls in ("realistic", "positions", "swap", "degenerate", "nanpad", "ties"):
         cases += [{"cls": cls, "seed": seed * 10000 + i, "n": 4, "_w": 1} for i in range(n if cls in ("realistic", "positions") else n // 2)]
